@@ -6,6 +6,7 @@ import (
 	"net"
 	"net/netip"
 	"os"
+	"strconv"
 	"strings"
 	"sync"
 	"syscall"
@@ -42,7 +43,7 @@ type dgram struct {
 type cycle struct {
 	Hello   dgram     `json:"hello"` // sent from inside OnConnected
 	Batches [][]dgram `json:"batches"`
-	// Stop: how the listener is signalled - "" the channel is closed; "INT", "TERM", "HUP", "USR1", "QUIT" that signal is sent;
+	// Stop: how the listener is signalled - "" the channel is closed; "INT", "TERM", "HUP", "USR1", "QUIT" that signal is sent; "#N" the signal with number N;
 	// "HUP+TERM" / "TERM+INT" two signals are delivered one after the other (buffered channel). The first signal stops it.
 	Stop string `json:"stop,omitempty"`
 }
@@ -54,8 +55,15 @@ func stopSignal(q chan os.Signal, how string) {
 		return
 	}
 	for _, name := range strings.Split(how, "+") {
+		var v os.Signal = sig[name]
+		if strings.HasPrefix(name, "#") {
+			// any signal number: what arrives on the channel is a request to stop whatever its value (an application that calls
+			// signal.Notify(q) without a list relays every signal there is - SIGURG, SIGWINCH, SIGCHLD ... included)
+			n, _ := strconv.Atoi(name[1:])
+			v = syscall.Signal(n)
+		}
 		select {
-		case q <- sig[name]:
+		case q <- v:
 		case <-time.After(2 * time.Second): // nobody is listening to the channel any more
 		}
 	}
@@ -582,7 +590,10 @@ func genHistory(t *rapid.T) history {
 	}
 	n := rapid.IntRange(1, 3).Draw(t, "cycles")
 	for i := 0; i < n; i++ {
-		cy := cycle{Hello: genDatagram(t, pool), Stop: rapid.SampledFrom([]string{"", "", "INT", "TERM", "HUP", "USR1", "QUIT", "HUP+TERM", "TERM+INT", "HUP+HUP"}).Draw(t, "stop")}
+		cy := cycle{Hello: genDatagram(t, pool), Stop: rapid.SampledFrom([]string{"", "", "INT", "TERM", "HUP", "USR1", "QUIT", "HUP+TERM", "TERM+INT", "HUP+HUP", "#23", "#28", "#17", "#13", "#18", "#0"}).Draw(t, "stop")}
+		if rapid.IntRange(0, 5).Draw(t, "stop.any.signal") == 0 {
+			cy.Stop = fmt.Sprintf("#%d", rapid.IntRange(1, 64).Draw(t, "stop.signal.number"))
+		}
 		nb := rapid.IntRange(1, 4).Draw(t, "batches")
 		for j := 0; j < nb; j++ {
 			var b []dgram
